@@ -35,6 +35,24 @@ def _seeded_variants():
     return out
 
 
+ALL_PIDS = "C01 C02 C03 C04 C06 C07 C08 C09 C10 C11 C12 C13 C14 C15 C16 C17 C18 C19 C20".split()
+
+
+def _refactoring_variants():
+    """Behaviour-preserving refactorings written by independent sub-agents (/verif/refactorings/<id>/patch.diff + notes.md): every check must stay silent
+    on every one of them."""
+    out = []
+    rd = os.path.join(VERIF, "refactorings")
+    if not os.path.isdir(rd):
+        return out
+    for d in sorted(os.listdir(rd)):
+        pp = os.path.join(rd, d, "patch.diff")
+        if os.path.exists(pp):
+            for pid in ALL_PIDS:
+                out.append(({"id": "refac-" + d, "kind": "SILENT", "pids": [pid], "patch": pp, "expect": None, "path": None}, pid))
+    return out
+
+
 def _one(job):
     var, pid = job
     if var.get("patch"):
@@ -135,6 +153,10 @@ def _one_patch(var, pid):
                         return (var["id"], pid, "error", "does not compile: %s" % e)
         env = dict(os.environ, DFV_NO_EVIDENCE="1")
         r = subprocess.run([sys.executable, "-m", "dfv", "check", pid, "--root", tmp, "--no-evidence"], cwd=VERIF, capture_output=True, text=True, env=env, timeout=600)
+        if var["kind"] == "SILENT":
+            if r.returncode == 0 and "VIOLATION" not in r.stdout:
+                return (var["id"], pid, "silent", "")
+            return (var["id"], pid, "false-alarm", "exit %d on a behaviour-preserving refactoring; tail: %s" % (r.returncode, (r.stdout + r.stderr)[-400:].replace("\n", " | ")))
         if r.returncode == 1 and "VIOLATION" in r.stdout:
             return (var["id"], pid, "fired", "")
         return (var["id"], pid, "missed", "exit %d; tail: %s" % (r.returncode, r.stdout[-300:].replace("\n", " | ")))
@@ -155,6 +177,13 @@ def run_variants(pids=None, kinds=("FIRE", "SILENT"), jobs=16, ids=None):
             work.append((var, pid))
     if "FIRE" in kinds:
         for (var, pid) in _seeded_variants():
+            if pids and pid not in pids:
+                continue
+            if ids and var["id"] not in ids:
+                continue
+            work.append((var, pid))
+    if "SILENT" in kinds:
+        for (var, pid) in _refactoring_variants():
             if pids and pid not in pids:
                 continue
             if ids and var["id"] not in ids:
